@@ -41,6 +41,28 @@ protected:
             socket->close();
             return;
         }
+        if (socket->rawPath() == "/chain") {
+            // the usual "send the next piece when the last one went out" loop: every piece but the first is written from
+            // inside the bytesWritten() slot; the connection is closed once every body byte has been announced
+            struct St { int sent = 1; qint64 announced = 0; };
+            St *st = new St;
+            const QByteArray piece(1000, 'c');
+            socket->setHeader("Content-Length", "4000");
+            QObject::connect(socket, &Socket::bytesWritten, [socket, st, piece](qint64 n) {
+                st->announced += n;
+                if (st->sent < 4) { ++st->sent; socket->write(piece); }
+                else if (st->announced >= 4000) socket->close();
+            });
+            QObject::connect(socket, &QObject::destroyed, [st]() { delete st; });
+            socket->write(piece);
+            return;
+        }
+        if (socket->rawPath() == "/mid") {
+            QByteArray piece(1024 * 1024, 'm');
+            for (int i = 0; i < 24; ++i) socket->write(piece);
+            socket->close();
+            return;
+        }
         obs->append("pr:0:" + hx(socket->rawPath()));
         socket->write("ok");
         socket->close();
@@ -160,6 +182,76 @@ void runTls(const Scn &scn, Out &out)
         out.obs << "end";
         alarm(0);
         QStringList sink; h.obs = &sink;
+        delete srv;
+        pump(100);
+        return;
+    }
+    if (scn.toks.contains("chain")) {
+        // a handler that paces itself on bytesWritten(): the client gets all four pieces and the connection is closed
+        alarm(30);
+        LogHandler h(obs);
+        Server *srv = new Server(&h);
+        srv->listen(QHostAddress::LocalHost, 0);
+        QTcpSocket c;
+        c.connectToHost(QHostAddress::LocalHost, srv->serverPort());
+        c.waitForConnected(1000);
+        c.write("GET /chain HTTP/1.1\r\n\r\n"); c.flush();
+        QByteArray got;
+        for (int i = 0; i < 12 && c.state() == QAbstractSocket::ConnectedState; ++i) { pump(150); got += c.readAll(); }
+        pump(100); got += c.readAll();
+        int hdr = got.indexOf("\r\n\r\n");
+        bool ok = got.startsWith("HTTP/1.0 200") && hdr > 0 && got.size() == hdr + 4 + 4000 && c.state() == QAbstractSocket::UnconnectedState;
+        *obs << QString("x:48:%1").arg(ok ? "01" : "00");
+        if (!ok) *obs << QString("x:47:%1").arg(QString::number(got.size(), 16));
+        out.obs << "end";
+        alarm(0);
+        QStringList sink; h.obs = &sink;
+        c.abort();
+        delete srv;
+        pump(100);
+        return;
+    }
+    if (scn.toks.contains("bigbody")) {
+        // a response larger than every buffer over an established TLS connection arrives in full
+        alarm(120);
+        LogHandler h(obs);
+        Server *srv = new Server(&h);
+        {
+            QFile keyFile(QString(REPO_DIR_STR) + "/tests/key.pem");
+            keyFile.open(QIODevice::ReadOnly);
+            QSslKey key(&keyFile, QSsl::Rsa);
+            QSslConfiguration config;
+            config.setPrivateKey(key);
+            config.setLocalCertificateChain(QSslCertificate::fromPath(QString(REPO_DIR_STR) + "/tests/cert.pem"));
+            srv->setSslConfiguration(config);
+        }
+        srv->listen(QHostAddress::LocalHost, 0);
+        QSslSocket c;
+        c.setPeerVerifyMode(QSslSocket::VerifyNone);
+        QObject::connect(&c, static_cast<void (QSslSocket::*)(const QList<QSslError> &)>(&QSslSocket::sslErrors), [&c]() { c.ignoreSslErrors(); });
+        c.connectToHostEncrypted("127.0.0.1", srv->serverPort());
+        QElapsedTimer t; t.start();
+        while (t.elapsed() < 5000 && !c.isEncrypted()) pump(50);
+        c.write("GET /mid HTTP/1.1\r\n\r\n"); c.flush();
+        qint64 total = 0; QByteArray first;
+        int idleRounds = 0;
+        while (idleRounds < 30) {
+            pump(50);
+            QByteArray b = c.readAll();
+            if (first.size() < 4096) first += b.left(4096 - first.size());
+            total += b.size();
+            idleRounds = b.isEmpty() ? idleRounds + 1 : 0;
+            if (b.isEmpty() && c.state() == QAbstractSocket::UnconnectedState) break;
+        }
+        int hdr = first.indexOf("\r\n\r\n");
+        bool ok = c.isEncrypted() || total > 0;
+        ok = first.startsWith("HTTP/1.0 200") && hdr > 0 && total == qint64(hdr) + 4 + 24LL * 1024 * 1024;
+        *obs << QString("x:49:%1").arg(ok ? "01" : "00");
+        if (!ok) *obs << QString("x:47:%1").arg(QString::number(total, 16));
+        out.obs << "end";
+        alarm(0);
+        QStringList sink; h.obs = &sink;
+        c.abort();
         delete srv;
         pump(100);
         return;
